@@ -52,6 +52,7 @@ struct Owned
     const void* m;
     int         owner;   // exclusive holder (mutex owner, rwlock writer), -1 if none
     uint32_t    readers; // bit per client holding an rwlock shared
+    int         depth;   // exclusive acquisitions by the owner (recursive mutexes)
 };
 
 struct G
@@ -80,6 +81,9 @@ struct G
     uint32_t preempt, stalls, blocked;
     uint32_t fine_seen, fine_next, fine_fired;
     uint32_t susp_seen, susp_next, susp_fired;
+    uint32_t bb_since_point[kMaxClients]; // basic blocks a client executed since its last schedule point
+    uint32_t last_ran[kMaxClients];       // decision number at which the client was last given the baton
+    uint32_t spin_yields;
     int      prio[kMaxClients];
     int      low_prio;
     Event    ev[kMaxEvents];
@@ -137,7 +141,7 @@ Owned* get_owned(const void* m)
         return o;
     if (g.nowned >= kMaxOwned)
         return nullptr;
-    g.owned[g.nowned] = Owned{m, -1, 0};
+    g.owned[g.nowned] = Owned{m, -1, 0, 0};
     return &g.owned[g.nowned++];
 }
 void drop_if_free(const void* m)
@@ -153,12 +157,28 @@ void drop_if_free(const void* m)
 void set_owner(const void* m, int c)
 {
     if (Owned* o = get_owned(m))
-        o->owner = c;
+    {
+        if (o->owner == c)
+            ++o->depth;
+        else
+        {
+            o->owner = c;
+            o->depth = 1;
+        }
+    }
 }
 void clear_owner(const void* m)
 {
     if (Owned* o = find_owned(m))
+    {
+        if (o->depth > 1)
+        {
+            --o->depth;
+            return;
+        }
         o->owner = -1;
+        o->depth = 0;
+    }
     drop_if_free(m);
 }
 // would client c have to wait for m (exclusive, or shared when `shared`)?
@@ -261,16 +281,19 @@ int choose(int c, bool force_switch = false)
                 pick = f[(d - 1) % nf];
         }
     }
-    if (force_switch && pick == c && nr > 1 && g.spec.mode != 1)
+    if (force_switch && nr > 1 && g.spec.mode != 1)
     {
-        // the first runnable client after c, cyclically
+        // whoever has not run for the longest time (never the yielding client itself): under any
+        // priority scheme a parked lock holder is reached after at most n - 1 forced yields
+        int best = -1;
         for (int i = 0; i < nr; ++i)
-            if (r[i] == c)
-            {
-                pick = r[(i + 1) % nr];
-                break;
-            }
+            if (r[i] != c && (best < 0 || g.last_ran[r[i]] < g.last_ran[best]))
+                best = r[i];
+        if (best >= 0)
+            pick = best;
     }
+    if (pick >= 0)
+        g.last_ran[pick] = k + 1;
     if (k < kMaxDec)
         g.chosen[k] = pick;
     if (cur_runnable && pick != c)
@@ -313,6 +336,7 @@ void yield_point(int self, bool force_switch = false)
 void point(uint8_t kind, int op, uint16_t aux)
 {
     int self = tls_client;
+    g.bb_since_point[self] = 0;
     log_event(self, kind, op, aux);
     yield_point(self, kind == EV_FINE && aux == 1);
 }
@@ -348,6 +372,12 @@ void begin_run(const Spec& spec)
     g.preempt = g.stalls = g.blocked = 0;
     g.fine_seen = g.fine_next = g.fine_fired = 0;
     g.susp_seen = g.susp_next = g.susp_fired = 0;
+    g.spin_yields = 0;
+    for (int i = 0; i < kMaxClients; ++i)
+    {
+        g.bb_since_point[i] = 0;
+        g.last_ran[i]       = 0;
+    }
     g.dyn_stall_client = -1;
     g.dyn_stall_until  = 0;
     g.relock           = 0;
@@ -463,6 +493,7 @@ uint32_t preemptions() { return g.preempt; }
 uint32_t stalls_fired() { return g.stalls; }
 uint32_t blocked_fired() { return g.blocked; }
 uint32_t relock_fired() { return g.relock; }
+uint32_t spin_yields() { return g.spin_yields; }
 uint32_t fine_fired() { return g.fine_fired; }
 uint32_t susp_seen() { return g.susp_seen; }
 uint32_t susp_fired() { return g.susp_fired; }
@@ -732,6 +763,15 @@ extern "C"
             return;
         if (g.cur_op[self] < 0 || g.state[self] != C_READY)
             return;
+        // (0) a client that executes very many basic blocks inside one call without reaching any
+        //     schedule point is busy-waiting for something only a parked client can provide (a spin
+        //     lock, an atomic flag): let the others run, as a real scheduler eventually would
+        if (++g.bb_since_point[self] > 200000 && g.held[self] == g.held_own[self])
+        {
+            ++g.spin_yields;
+            point(EV_FINE, g.cur_op[self], 1);
+            return;
+        }
         // (1) code that calibration saw under the container's lock, now running inside a call
         //     without it: the locking discipline is not uniform for this code
         if (g.held_own[self] == 0 && tls_in_call > 0 && id < kMaxGuards && g_locked_bb[id])
